@@ -5,7 +5,8 @@
    generalize = px.Generalize, generic = px.GenericType) over Model/Lattice.v (`asg rx true` = GuardedIsAssignable
    + IsAssignable as the code is, `inst rx true` = IsInstance).  `rx` (Go regexp matching) is arbitrary. *)
 From Coq Require Import ZArith NArith Bool List.
-From PcoreV Require Import Model.Base Model.Ty Model.Lattice Model.Infer Model.InferHist Proofs.LatticeBasics Proofs.LatticeRule Proofs.InferProofs Proofs.InferCommon Proofs.InferInst Proofs.InferHistProofs.
+From PcoreV Require Import Model.Base Model.Ty Model.Lattice Model.Infer Model.InferHist Proofs.LatticeBasics Proofs.LatticeRule Proofs.InferProofs Proofs.InferCommon Proofs.InferInst Proofs.InferHistProofs
+  Proofs.LatticeTransSound Proofs.InferTransKeq Proofs.InferTransCommon Proofs.InferTransInst Proofs.InferTransDetailed.
 Import ListNotations.
 Open Scope Z_scope.
 
@@ -46,26 +47,41 @@ Example C04_nonfinite_float_generalize :
 Proof. vm_compute. repeat split; reflexivity. Qed.
 
 (* ---- every value is an instance of its detailed type ---- *)
-(* dv_ok v: nothing outside the model, string hash keys pairwise different, a type used as a
-   value accepts itself (in the code: the pointer shortcut a == b of GuardedIsAssignable; C03 reflexivity), and
-   UniqueTypes drops only structurally equal detailed key/value types (dedup_exact) — `_partial` for the last
-   two: the general statement needs reflexivity of assignability (C03) and that key-equal types are
-   interchangeable. *)
+(* dv_ok2 v: nothing outside the model, string hash keys pairwise different, the types used as values (at any depth)
+   are as the Go constructors build them (wf_ty) - that such a type accepts itself is C03_refl, no hypothesis - and
+   UniqueTypes drops only structurally equal detailed key/value types of a hash (dedup_exact) - `_partial` for this
+   last condition only: two detailed types with the same hash key that are not structurally equal (member order of a
+   Variant / Enum / Pattern inside) are interchangeable only by a congruence of inst AND asg under key equality on
+   both sides; transitivity (C03_trans) does not give it because detailed types contain Unit (Array[Unit,0,0]). *)
 Theorem C04_infer_detailed_inst_partial :
-  forall (rx : str -> str -> bool) (v : value), dv_ok rx v = true -> inst rx true (infer_detailed rx v) v = true.
-Proof. exact detailed_inst. Qed.
+  forall (rx : str -> str -> bool) (v : value), dv_ok2 rx v = true -> inst rx true (infer_detailed rx v) v = true.
+Proof. exact detailed_inst2. Qed.
 Print Assumptions C04_infer_detailed_inst_partial.
 
 Example C04_detailed_nonvacuous :
   let rx := fun _ _ => false in
   let v := VArr [VHash [(VStr [97%N], VInt 1); (VStr [98%N], VUndef)]; VHash [(VInt 1, VStr [97%N]); (VStr [], VArr [])];
                  VSensitive (VArr [VFloat 5; VType (TInteger 0 5)]); VArr []] in
-  dv_ok rx v = true /\
+  dv_ok2 rx v = true /\
   infer_detailed rx v =
     TTuple [TStruct [([97%N], (TStringVal [97%N], TInteger 1 1)); ([98%N], (TOptional (TStringVal [98%N]), TUndef))];
             THash (TVariant [TInteger 1 1; TStringVal []]) (TVariant [TStringVal [97%N]; TArray TUnit 0 0]) 2 2;
             TSensitive (TTuple [TFloat 5 5; TType (TInteger 0 5)] false 2 2);
             TArray TUnit 0 0] false 4 4 /\
+  inst rx true (infer_detailed rx v) v = true.
+Proof. vm_compute. repeat split; reflexivity. Qed.
+
+(* types used as values, nested in collections: a hash of arrays of types (a Struct with a Hash type inside among them) *)
+Example C04_detailed_types_as_values :
+  let rx := fun _ _ => false in
+  let s := TStruct [([97%N], (TOptional (TStringVal [97%N]), THash TString (TVariant [TInteger 0 5; TUndef]) 0 3))] in
+  let v := VHash [(VStr [97%N], VArr [VType s; VType (TTuple [TEnum true [[97%N]]; TNotUndef (TOptional TString)] true 1 5)]);
+                  (VInt 1, VArr [VSensitive (VType (TType s)); VArr []])] in
+  dv_ok2 rx v = true /\
+  infer_detailed rx v =
+    THash (TVariant [TStringVal [97%N]; TInteger 1 1])
+          (TVariant [TTuple [TType s; TType (TTuple [TEnum true [[97%N]]; TNotUndef (TOptional TString)] true 1 5)] false 2 2;
+                     TTuple [TSensitive (TType (TType s)); TArray TUnit 0 0] false 2 2]) 2 2 /\
   inst rx true (infer_detailed rx v) v = true.
 Proof. vm_compute. repeat split; reflexivity. Qed.
 
@@ -75,7 +91,7 @@ Proof. vm_compute. repeat split; reflexivity. Qed.
 Example C04_nonfinite_float_infer :
   let rx := fun _ _ => false in
   let v := VArr [VArr [VNaN; VFloat InfF; VFloat (- InfF)]; VArr [VFloat 0]; VArr [VNaN]] in
-  iv_ok rx v = true /\ dv_ok rx v = true /\ cv_ok rx v = true /\
+  iv_all rx v = true /\ dv_ok2 rx v = true /\ cv_ok0 v = true /\
   infer rx VNaN = TFloat (- InfF) InfF /\ inst rx true (infer rx VNaN) VNaN = true /\
   inst rx true (TFloat (- InfF) 0) VNaN = false /\ inst rx true (TFloat InfF InfF) VNaN = false /\
   infer rx v = TArray (TArray (TFloat (- InfF) InfF) 1 3) 3 3 /\
@@ -93,9 +109,10 @@ Definition C04_detailed_sound_statement (vals : (str -> str -> bool) -> value ->
     asg rx true T (infer_detailed rx v) = true -> inst rx true T v = true.
 
 (* Proved with the open finding C04/byspec-struct-accepts-hash-sound excluded by the syntactic guard of C01
-   (rule_free T D: T contains no Struct or D contains no Hash); `_partial`: dv_ok as above. *)
-Theorem C04_detailed_sound_partial : C04_detailed_sound_statement dv_ok LatticeRule.rule_free.
-Proof. intros rx v T Hv. exact (detailed_sound_core rx v Hv T). Qed.
+   (rule_free T D: T contains no Struct or D contains no Hash); `_partial`: the UniqueTypes condition of dv_ok2 (see
+   above); a type used as a value needs wf_ty only (reflexivity is C03_refl). *)
+Theorem C04_detailed_sound_partial : C04_detailed_sound_statement dv_ok2 LatticeRule.rule_free.
+Proof. intros rx v T Hv. exact (detailed_sound2 rx v Hv T). Qed.
 Print Assumptions C04_detailed_sound_partial.
 
 Example C04_detailed_sound_nonvacuous :
@@ -104,14 +121,23 @@ Example C04_detailed_sound_nonvacuous :
   let h := VHash [(VStr [97%N], VInt 1); (VStr [98%N], VUndef)] in
   let T := TTuple [TVariant [S; TInteger 0 0]; TArray (TNotUndef TScalar) 0 3] true 1 2 in
   let v := VArr [h; VArr [VFloat 2; VRegexp [97%N]]] in
-  dv_ok rx v = true /\ LatticeRule.rule_free T (infer_detailed rx v) = true /\
+  dv_ok2 rx v = true /\ LatticeRule.rule_free T (infer_detailed rx v) = true /\
   asg rx true T (infer_detailed rx v) = true /\ inst rx true T v = true /\
   asg rx true T (infer_detailed rx (VArr [h; VArr [VUndef]])) = false.
 Proof. vm_compute. repeat split; reflexivity. Qed.
 
+(* with types as values: T accepts the detailed type of an array of an array of types *)
+Example C04_detailed_sound_types_as_values :
+  let rx := fun _ _ => false in
+  let v := VArr [VArr [VType (TInteger 0 5); VType (TArray (TEnum false [[97%N]]) 1 2)]; VType (TType TString)] in
+  let T := TTuple [TArray (TType (TVariant [TNumeric; TArray TString 0 3])) 0 2; TType (TType TScalar)] false 2 2 in
+  dv_ok2 rx v = true /\ LatticeRule.rule_free T (infer_detailed rx v) = true /\
+  asg rx true T (infer_detailed rx v) = true /\ inst rx true T v = true /\ cv_ok0 v = true /\ cwf T = true.
+Proof. vm_compute. repeat split; reflexivity. Qed.
+
 (* open finding C04/byspec-struct-accepts-hash-sound: the unguarded statement fails in the model as in the code *)
 Example C04_byspec_struct_accepts_hash_refuted :
-  exists T v, dv_ok (fun _ _ => false) v = true /\
+  exists T v, dv_ok2 (fun _ _ => false) v = true /\
               asg (fun _ _ => false) true T (infer_detailed (fun _ _ => false) v) = true /\
               inst (fun _ _ => false) true T v = false.
 Proof.
@@ -120,15 +146,17 @@ Proof.
 Qed.
 
 (* ---- conversely, for values without undef-valued hash entry ---- *)
-(* cv_ok v = dv_ok v + no undef-valued hash entry (the exclusion the property names) + float values that are order
-   keys of floats (between the keys of -Inf and +Inf: the infinities and NaN are inside the theorem);
+(* cv_ok0 v = nothing outside the model, string hash keys pairwise different (kv_ok) + no undef-valued hash entry (the
+   exclusion the property names) + float values that are order keys of floats (between the keys of -Inf and +Inf:
+   the infinities and NaN are inside the theorem).  Nothing is asked of the types used as values and nothing of
+   UniqueTypes (the earlier guard cv_ok contained dv_ok: reflexivity and dedup_exact; neither is needed).
    cwf T = Struct types as the constructors build them + no Tuple with more element types than its minimum size
-   (open finding C04/tuple-slots-beyond-size). *)
+   (open finding C04/tuple-slots-beyond-size: the one exclusion left, hence still `_partial`). *)
 Theorem C04_detailed_complete_partial :
   forall (rx : str -> str -> bool) (v : value) (T : ty),
-    cv_ok rx v = true -> cwf T = true ->
+    cv_ok0 v = true -> cwf T = true ->
     inst rx true T v = true -> asg rx true T (infer_detailed rx v) = true.
-Proof. intros rx v T Hv. exact (detailed_complete_core rx v Hv T). Qed.
+Proof. intros rx v T Hv. exact (detailed_complete_core0 rx v Hv T). Qed.
 Print Assumptions C04_detailed_complete_partial.
 
 Example C04_detailed_complete_nonvacuous :
@@ -136,7 +164,7 @@ Example C04_detailed_complete_nonvacuous :
   let S := TStruct [([97%N], (TStringVal [97%N], TInteger 0 5)); ([98%N], (TOptional (TStringVal [98%N]), TOptional TString))] in
   let T := TArray (TVariant [S; THash TScalarData (TVariant [TString; TArray TAny 0 0]) 0 2; TTuple [TFloat 0 5] true 1 3]) 1 4 in
   let v := VArr [VHash [(VStr [97%N], VInt 1)]; VHash [(VInt 1, VStr [97%N]); (VStr [], VArr [])]; VArr [VFloat 2; VFloat 3]] in
-  cv_ok rx v = true /\ cwf T = true /\ inst rx true T v = true /\ asg rx true T (infer_detailed rx v) = true.
+  cv_ok0 v = true /\ cwf T = true /\ inst rx true T v = true /\ asg rx true T (infer_detailed rx v) = true.
 Proof. vm_compute. repeat split; reflexivity. Qed.
 
 (* the exclusion the property names is needed: an undef-valued entry makes the inferred key optional *)
@@ -150,7 +178,7 @@ Proof. vm_compute. repeat split; reflexivity. Qed.
 (* open finding C04/tuple-slots-beyond-size: [1] is an instance of Tuple[Integer,String,1,2], which does not
    accept its detailed type Tuple[Integer[1,1]] *)
 Example C04_tuple_slots_beyond_size_refuted :
-  exists T v, cv_ok (fun _ _ => false) v = true /\ inst (fun _ _ => false) true T v = true /\
+  exists T v, cv_ok0 v = true /\ inst (fun _ _ => false) true T v = true /\
               asg (fun _ _ => false) true T (infer_detailed (fun _ _ => false) v) = false.
 Proof.
   exists (TTuple [TInteger MinI MaxI; TString] true 1 2), (VArr [VInt 1]). vm_compute. repeat split; reflexivity.
@@ -163,17 +191,28 @@ Definition C04_common_statement (ok : (str -> str -> bool) -> ty -> ty -> bool) 
     ok rx a b = true -> wf_ty a = true -> wf_ty b = true -> no_other (common rx a b) = true ->
     asg rx true (common rx a b) a = true /\ asg rx true (common rx a b) b = true.
 
-(* Proved for every pair of (well-formed) types on which commonType does not reach, at any depth, the merge of two
-   Tuple types (common_ok = false there: the common element type is a fold of commonType and needs transitivity of
-   assignability, which the by-specification rule and Unit break — open findings byspec-struct-accepts-hash-common,
-   unit-outside-empty-collection) or a merge of two Variants in which UniqueTypes drops a member that is not
-   structurally equal to the one kept.  no_other (result): the result is neither the out-of-fuel marker nor
-   contains the aliases Data / RichData, which are not constructors of `ty` (missing constructor: TAlias; for a
-   top-level alias result see C04_common_alias). *)
+(* Proved for every pair of well-formed types, Tuple/Tuple merges included (the common type of two Tuple types is
+   Array[commonType(cet ts, cet ts')], `cet` a fold of commonType over the element types: that the result accepts every
+   element type is transitivity of assignability, C03_trans, along the fold).  common_ok2 follows the recursion of
+   commonType and asks, where two Tuple types are merged: their element types are Unit-free and the by-specification
+   Struct<-Hash rule cannot fire between them (none contains a Struct, or none contains a Hash: `tfree`) - the two side
+   conditions of transitivity, open findings unit-outside-empty-collection and byspec-struct-accepts-hash-common - and
+   no step of the two folds yields an alias.  Nothing else: no condition on Tuple sizes or slots, and none on
+   UniqueTypes where two Variants are merged (the earlier dedup_exact is gone: members with the same hash key accept
+   each other, InferTransKeq.tkeq_asg, so whichever representative UniqueTypes keeps accepts the member dropped).
+   no_other (result): the result is neither the out-of-fuel marker nor contains the aliases Data / RichData, which are
+   not constructors of `ty` (missing constructor: TAlias; for a top-level alias result see InferCommon.other_accepts_data).
+   `_partial` for the aliases only. *)
 Theorem C04_common_ub_partial :
-  C04_common_statement (fun rx a b => common_ok rx (S (tsize a + tsize b)) a b).
-Proof. intros rx a b. apply common_ub. Qed.
+  C04_common_statement (fun rx a b => common_ok2 rx (S (tsize a + tsize b)) a b).
+Proof. intros rx a b. apply common_ub2. Qed.
 Print Assumptions C04_common_ub_partial.
+
+(* the guard of the earlier version of the theorem (common_ok: no Tuple/Tuple merge at any depth) implies this one *)
+Theorem C04_common_guard_weaker :
+  forall (rx : str -> str -> bool) (n : nat) (a b : ty), common_ok rx n a b = true -> common_ok2 rx n a b = true.
+Proof. exact common_ok_ok2. Qed.
+Print Assumptions C04_common_guard_weaker.
 
 Example C04_common_nonvacuous :
   let rx := fun _ _ => false in
@@ -181,21 +220,53 @@ Example C04_common_nonvacuous :
   let b := TArray (TVariant [TEnum false [[98%N]]; TFloat 1 1]) 3 3 in
   let a' := TType (TNotUndef (TArray (TEnum true [[97%N]]) 0 1)) in
   let b' := TType (TNotUndef (TArray (TStringVal [66%N]) 2 2)) in
-  common_ok rx (S (tsize a + tsize b)) a b = true /\ wf_ty a = true /\ wf_ty b = true /\
+  common_ok2 rx (S (tsize a + tsize b)) a b = true /\ wf_ty a = true /\ wf_ty b = true /\
   common rx a b = TArray (TVariant [TInteger 0 5; TStringVal [97%N]; TEnum false [[98%N]]; TFloat 1 1]) 1 3 /\
   asg rx true (common rx a b) a = true /\ asg rx true (common rx a b) b = true /\
   asg rx true a b = false /\ asg rx true b a = false /\
   common rx a' b' = TType (TNotUndef (TArray (TEnum true [[97%N]; [98%N]]) 0 2)) /\
-  common_ok rx (S (tsize a' + tsize b')) a' b' = true /\
+  common_ok2 rx (S (tsize a' + tsize b')) a' b' = true /\
   asg rx true (common rx a' b') a' = true /\ asg rx true (common rx a' b') b' = true /\
   common rx (TInteger 1 1) (TStringVal [97%N]) = TScalarData /\
   common rx (TArray (TInteger 1 1) 1 1) (THash TString TUndef 0 1) = TData.
 Proof. vm_compute. repeat split; reflexivity. Qed.
 
-(* open finding C04/unit-outside-empty-collection (and the reason for `common_ok`): two Tuple types whose
-   common type does not accept the first *)
+(* Tuple/Tuple: nested Tuples against Arrays, the common element types folded on both sides; the earlier guard
+   excluded the pair *)
+Example C04_common_tuple_tuple :
+  let rx := fun _ _ => false in
+  let a := TTuple [TTuple [TInteger 0 5; TInteger 7 9] false 2 2; TTuple [TInteger 20 30] false 1 1] false 2 2 in
+  let b := TTuple [TArray (TFloat 0 1) 0 3; TArray (TFloat 5 6) 1 1] true 1 4 in
+  let a' := TType (TTuple [TStringVal [97%N]; TEnum false [[98%N]; [99%N]]; TStringVal [100%N]] false 3 3) in
+  let b' := TType (TTuple [TPattern [[97%N]]; TPattern [[98%N]]] true 0 9) in
+  common_ok2 rx (S (tsize a + tsize b)) a b = true /\ common_ok rx (S (tsize a + tsize b)) a b = false /\
+  wf_ty a = true /\ wf_ty b = true /\
+  common rx a b = TArray (TArray TNumeric 0 3) 1 4 /\
+  asg rx true (common rx a b) a = true /\ asg rx true (common rx a b) b = true /\
+  asg rx true a b = false /\ asg rx true b a = false /\
+  common_ok2 rx (S (tsize a' + tsize b')) a' b' = true /\ wf_ty a' = true /\ wf_ty b' = true /\
+  common rx a' b' = TType (TArray TScalarData 0 9) /\
+  asg rx true (common rx a' b') a' = true /\ asg rx true (common rx a' b') b' = true.
+Proof. vm_compute. repeat split; reflexivity. Qed.
+
+(* Variant/Variant where UniqueTypes drops a member that is key-equal but not structurally equal to the one kept
+   (Enum['b','a'] for Enum['a','b']); the earlier guard excluded the pair *)
+Example C04_common_variant_key_equal :
+  let rx := fun _ _ => false in
+  let a := TVariant [TEnum false [[97%N]; [98%N]]; TInteger 0 1] in
+  let b := TVariant [TFloat 0 1; TEnum false [[98%N]; [97%N]]] in
+  common_ok2 rx (S (tsize a + tsize b)) a b = true /\ common_ok rx (S (tsize a + tsize b)) a b = false /\
+  wf_ty a = true /\ wf_ty b = true /\
+  common rx a b = TVariant [TEnum false [[97%N]; [98%N]]; TInteger 0 1; TFloat 0 1] /\
+  asg rx true (common rx a b) a = true /\ asg rx true (common rx a b) b = true /\
+  asg rx true a b = false /\ asg rx true b a = false.
+Proof. vm_compute. repeat split; reflexivity. Qed.
+
+(* open finding C04/unit-outside-empty-collection (the reason for the Unit-free condition in `common_ok2`): two Tuple
+   types whose common type does not accept the first *)
 Example C04_unit_outside_empty_collection_refuted :
   exists a b, wf_ty a = true /\ wf_ty b = true /\ no_other (common (fun _ _ => false) a b) = true /\
+              common_ok2 (fun _ _ => false) (S (tsize a + tsize b)) a b = false /\
               asg (fun _ _ => false) true (common (fun _ _ => false) a b) a = false.
 Proof.
   exists (TTuple [THash TUnit TUnit 0 MaxI; THash (TInteger MinI MaxI) TString 0 MaxI] false 2 2),
@@ -204,15 +275,29 @@ Proof.
 Qed.
 
 (* ---- every value is an instance of its inferred (generic) type ---- *)
-(* iv_ok v: first order (no type used as a value inside: an array of types is an instance of Type[common ...] only
-   by transitivity of assignability, C03), and no alias Data / RichData at any step of the fold
-   (the aliases are not constructors of `ty`: missing constructor TAlias) — hence `_partial`.  The inferred type of
-   a collection is a fold of commonType; the proof shows that on the types inference produces commonType is a
-   semantic upper bound (C04_common_covers). *)
+(* EVERY value of the model, types used as values at any depth included (arrays and hashes of types, types inside
+   nested collections: the inferred type of an array of types is Array[Type[c]] with c a fold of commonType, and
+   `inst (Type[c]) (VType u) = asg c u` - C04_common_ub plus transitivity, C03_trans, along the fold).
+   iv_all v = iv_ok2 v && tvals_ok v:
+     tvals_ok  the types used as values are well-formed (wf_ty: what the constructors guarantee), Unit-free, and the
+               by-specification Struct<-Hash rule cannot fire between any two of them or their common types (none
+               contains a Struct, or none contains a Hash) - the two exclusions the property names (C01_sound has the
+               same ones as no_unit / rule_free_val), which are the side conditions of transitivity;
+     iv_ok2    no alias Data / RichData at any step of a fold (the aliases are not constructors of `ty`: missing
+               constructor TAlias) - hence `_partial` - and the guard common_ok2 of C04_common_ub at every step
+               (for types used as values that are or contain Tuples / Variants; it holds of every first-order step).
+   The proof shows that on the class K2 of types inference produces (InferInst.K extended by Type[t]) commonType is a
+   semantic upper bound. *)
 Theorem C04_infer_inst_partial :
-  forall (rx : str -> str -> bool) (v : value), iv_ok rx v = true -> inst rx true (infer rx v) v = true.
-Proof. intros rx v H. exact (proj2 (infer_inst rx v H)). Qed.
+  forall (rx : str -> str -> bool) (v : value), iv_all rx v = true -> inst rx true (infer rx v) v = true.
+Proof. exact infer_inst_all. Qed.
 Print Assumptions C04_infer_inst_partial.
+
+(* the guard of the earlier, first-order version of the theorem (iv_ok: no type used as a value) implies this one *)
+Theorem C04_infer_guard_weaker :
+  forall (rx : str -> str -> bool) (v : value), iv_ok rx v = true -> iv_all rx v = true.
+Proof. exact iv_ok_subsumed. Qed.
+Print Assumptions C04_infer_guard_weaker.
 
 Theorem C04_common_covers :
   forall (rx : str -> str -> bool) (a b : ty) (x : value),
@@ -235,6 +320,44 @@ Example C04_infer_nonvacuous :
   infer rx (VArr [VArr [VInt 1]; VArr [VInt 1; a]]) = TArray (TArray TScalarData 1 2) 2 2 /\
   inst rx true (infer rx (VArr [VArr [VInt 1]; VArr [VInt 1; a]])) (VArr [VArr [VInt 1]; VArr [VInt 1; a]]) = true.
 Proof. vm_compute. repeat split; reflexivity. Qed.
+
+(* types used as values: arrays of types (Tuple types among them: Tuple/Tuple common types), nested, as hash values
+   and inside Sensitive; iv_ok (the earlier guard) is false of all of them *)
+Example C04_infer_types_as_values :
+  let rx := fun _ _ => false in
+  let t1 := TTuple [TInteger 0 5; TInteger 7 9] false 2 2 in
+  let t2 := TTuple [TFloat 0 1] true 1 4 in
+  let t3 := TArray (TStringVal [97%N]) 0 3 in
+  let v := VArr [VArr [VType t1; VType t2]; VArr [VType t3]; VArr []] in
+  let w := VHash [(VStr [97%N], VArr [VType (TInteger 0 5); VType (TInteger 7 9)]);
+                  (VStr [98%N], VArr [VType (TFloat 0 1)])] in
+  let u := VHash [(VType (TVariant [TInteger 0 1; TString]), VSensitive (VType TString));
+                  (VType (TVariant [TFloat 0 1; TString]), VSensitive (VType (TPattern [[97%N]])))] in
+  iv_all rx v = true /\ iv_ok rx v = false /\
+  infer rx (VArr [VType t1; VType t2]) = TArray (TType (TArray TNumeric 1 4)) 2 2 /\
+  infer rx v = TArray (TArray (TType (TArray TScalar 0 4)) 0 2) 3 3 /\
+  inst rx true (infer rx v) v = true /\
+  iv_all rx w = true /\
+  infer rx w = THash (TEnum false [[97%N]; [98%N]]) (TArray (TType TNumeric) 1 2) 2 2 /\
+  inst rx true (infer rx w) w = true /\
+  iv_all rx u = true /\
+  infer rx u = THash (TType (TVariant [TInteger 0 1; TString; TFloat 0 1])) (TSensitive (TType TString)) 2 2 /\
+  inst rx true (infer rx u) u = true.
+Proof. vm_compute. repeat split; reflexivity. Qed.
+
+(* open finding C04/byspec-struct-accepts-hash-infer (the reason for the Struct-free-or-Hash-free condition in tvals_ok):
+   three types used as values, [Struct[{a=>Integer}], Hash[String,Integer,1,1], Hash[Enum[a],Integer,0,5]]; the Struct
+   accepts the first Hash type by the by-specification rule and is accepted by the second, which does not accept the
+   first: the array is not an instance of its inferred type Array[Type[Hash[Enum[a],Integer,0,5]],3,3] (same on the code) *)
+Example C04_byspec_infer_refuted :
+  exists v, iv_ok2 (fun _ _ => false) v = true /\ tv_ok (fun t => wf_ty t && no_unit t) v = true /\
+            tvals_ok v = false /\
+            inst (fun _ _ => false) true (infer (fun _ _ => false) v) v = false.
+Proof.
+  exists (VArr [VType (TStruct [([97%N], (TStringVal [97%N], TInteger MinI MaxI))]); VType (THash TString (TInteger MinI MaxI) 1 1);
+                VType (THash (TEnum false [[97%N]]) (TInteger MinI MaxI) 0 5)]).
+  vm_compute. repeat split; reflexivity.
+Qed.
 
 (* ---- histories: inference on values that share parts, in any order ---- *)
 (* Model/InferHist.v: the objects of a value graph (a collection refers to its elements, an object can be an
@@ -260,7 +383,7 @@ Print Assumptions C04_history_pure.
 Theorem C04_history_infer_inst_partial :
   forall (rx : str -> str -> bool) (ns : list node) (ops : list op) (k i : nat),
     wf_dag ns = true -> forallb (op_ok ns) ops = true -> nth_error ops k = Some (OPType i) ->
-    iv_ok rx (nth i (vals_of ns) VUndef) = true ->
+    iv_all rx (nth i (vals_of ns) VUndef) = true ->
     inst rx true (nth k (snd (run rx ns ops)) TFault) (nth i (vals_of ns) VUndef) = true.
 Proof.
   intros rx ns ops k i Hwf Hops Hk Hv. rewrite (history_result_end rx ns Hwf ops k _ Hops Hk eq_refl). cbn [spec_op].
@@ -271,7 +394,7 @@ Print Assumptions C04_history_infer_inst_partial.
 Theorem C04_history_detailed_inst_partial :
   forall (rx : str -> str -> bool) (ns : list node) (ops : list op) (k i : nat),
     wf_dag ns = true -> forallb (op_ok ns) ops = true -> nth_error ops k = Some (ODetailed i) ->
-    dv_ok rx (nth i (vals_of ns) VUndef) = true ->
+    dv_ok2 rx (nth i (vals_of ns) VUndef) = true ->
     inst rx true (nth k (snd (run rx ns ops)) TFault) (nth i (vals_of ns) VUndef) = true.
 Proof.
   intros rx ns ops k i Hwf Hops Hk Hv. rewrite (history_result_end rx ns Hwf ops k _ Hops Hk eq_refl). cbn [spec_op].
@@ -287,7 +410,7 @@ Theorem C04_history_common_ub_partial :
     let res := snd (run rx ns ops) in
     let ta := deref res a in
     let tb := deref res b in
-    common_ok rx (S (tsize ta + tsize tb)) ta tb = true -> wf_ty ta = true -> wf_ty tb = true ->
+    common_ok2 rx (S (tsize ta + tsize tb)) ta tb = true -> wf_ty ta = true -> wf_ty tb = true ->
     no_other (common rx ta tb) = true ->
     asg rx true (nth k res TFault) ta = true /\ asg rx true (nth k res TFault) tb = true.
 Proof.
@@ -334,7 +457,7 @@ Example C04_history_nonvacuous :
      TArray (e [97; 98; 99]%N) 3 3] /\
   get_red (fst (run rx ns ops)) 3 = Some (TArray (e [97; 98; 99]%N) 3 3) /\
   get_red (fst (run rx ns ops)) 10 = None /\
-  iv_ok rx (nth 8 (vals_of ns) VUndef) = true /\
+  iv_all rx (nth 8 (vals_of ns) VUndef) = true /\
   inst rx true (nth 0 (snd (run rx ns ops)) TFault) (nth 8 (vals_of ns) VUndef) = true /\
   (* what the seeded change turned the first result into does not contain the value *)
   inst rx true (TArray (TArray (e [97; 98; 99; 101]%N) 1 3) 2 2) (nth 8 (vals_of ns) VUndef) = false.
